@@ -124,12 +124,19 @@ impl<R> Archive<R> {
         ) as usize;
 
         // Read the dictionary, chunk data offset and header hash
+        let trailer_size = dictionary_size
+            .checked_add(8 + 64)
+            .filter(|size| size.checked_add(header::PRE_HEADER_SIZE).is_some())
+            .ok_or_else(|| ArchiveError::invalid_archive("invalid dictionary size"))?;
         header.extend_from_slice(
             &reader
-                .read_at(header::PRE_HEADER_SIZE as u64, dictionary_size + 8 + 64)
+                .read_at(header::PRE_HEADER_SIZE as u64, trailer_size)
                 .await
                 .map_err(ArchiveError::ReaderError)?,
         );
+        if header.len() != header::PRE_HEADER_SIZE + trailer_size {
+            return Err(ArchiveError::invalid_archive("unexpected header size"));
+        }
 
         // Verify the header against the header checksum
         let header_checksum = {
@@ -157,13 +164,20 @@ impl<R> Archive<R> {
         let archive_chunks = dictionary
             .chunk_descriptors
             .into_iter()
-            .map(|dict| ChunkDescriptor {
-                checksum: dict.checksum.into(),
-                archive_size: dict.archive_size as usize,
-                archive_offset: chunk_data_offset + dict.archive_offset,
-                source_size: dict.source_size,
+            .map(|dict| {
+                // The chunk must be addressable: neither its start nor its end may overflow.
+                let archive_offset = chunk_data_offset
+                    .checked_add(dict.archive_offset)
+                    .filter(|offset| offset.checked_add(u64::from(dict.archive_size)).is_some())
+                    .ok_or_else(|| ArchiveError::invalid_archive("invalid chunk offset"))?;
+                Ok(ChunkDescriptor {
+                    checksum: dict.checksum.into(),
+                    archive_size: dict.archive_size as usize,
+                    archive_offset,
+                    source_size: dict.source_size,
+                })
             })
-            .collect();
+            .collect::<Result<Vec<ChunkDescriptor>, ArchiveError<R::Error>>>()?;
         let chunker_params = dictionary
             .chunker_params
             .ok_or_else(|| ArchiveError::invalid_archive("invalid chunker parameters"))?;
@@ -173,6 +187,12 @@ impl<R> Archive<R> {
             .into_iter()
             .map(|v| v as usize)
             .collect();
+        if source_order
+            .iter()
+            .any(|&index| index >= archive_chunks.len())
+        {
+            return Err(ArchiveError::invalid_archive("invalid rebuild order"));
+        }
         Ok(Self {
             reader,
             archive_chunks,
@@ -330,7 +350,23 @@ fn chunker_config_from_params<R>(
     p: dict::ChunkerParameters,
 ) -> Result<chunker::Config, ArchiveError<R>> {
     use dict::chunker_parameters::ChunkingAlgorithm;
-    match ChunkingAlgorithm::try_from(p.chunking_algorithm) {
+    let algorithm = ChunkingAlgorithm::try_from(p.chunking_algorithm);
+    // Reject parameters no chunker can run with (they come from an untrusted header).
+    let valid = match algorithm {
+        Ok(ChunkingAlgorithm::FixedSize) => p.max_chunk_size >= 1,
+        Ok(_) => {
+            p.rolling_hash_window_size >= 1
+                && p.max_chunk_size >= 1
+                && p.min_chunk_size <= p.max_chunk_size
+                && p.rolling_hash_window_size <= p.max_chunk_size
+                && (1..=32).contains(&p.chunk_filter_bits)
+        }
+        Err(_) => true,
+    };
+    if !valid {
+        return Err(ArchiveError::invalid_archive("invalid chunker parameters"));
+    }
+    match algorithm {
         Ok(ChunkingAlgorithm::Buzhash) => Ok(chunker::Config::BuzHash(chunker::FilterConfig {
             filter_bits: chunker::FilterBits::from_bits(p.chunk_filter_bits),
             min_chunk_size: p.min_chunk_size as usize,
